@@ -184,6 +184,11 @@ def law_check(ctx, drv, sis, cases, tag, depth_unw=8, depth_w=14):
         except ZeroDivisionError:
             ctx.count(tag + ":law-zero-rate")
             continue
+        except symu.Budget:
+            # the enumeration of the rejection sampler ran out of leaves (e.g. three of four candidates have weight 0):
+            # a limit of the enumerator, no verdict about the code
+            ctx.count(tag + ":law-budget")
+            continue
         except Exception as e:
             ctx.violation("one-step law enumeration: implementation raised %s" % type(e).__name__,
                           dict(entry=tag, stream="law", case=c, error=type(e).__name__))
